@@ -28,7 +28,6 @@ var c11Valid = []string{"7 3 1 1 *", "7 3 29 2 *", "7 3 1 7 *", "0 8 3 1 1 *", "
 // Specs the cron library rejects.
 var c11Invalid = []string{"61 * * * *", "not a crontab", "* * *", ""}
 
-const c11Sentinel = "9 3 2 1 *"
 
 // ------------------------------------------------------------------ part A: the manager alone
 
@@ -424,38 +423,32 @@ func (s *c11Sys) drain() map[string][]string {
 	return res
 }
 
-// tick injects one wall-clock tick of the crontab: the job of every live cron registration is run
-// (each sends to ScheduleCh), the started ManagerEventsHandler turns the events into tasks and appends
-// them to the queues. A sentinel crontab with its own hook and queue is fired afterwards: the handler
-// processes events one at a time, so once the sentinel's task is queued the tick's tasks are too.
-func (s *c11Sys) tick(cn int, sentinelCn int) int {
+// tick injects one wall-clock tick of the crontab: the job of every live cron registration whose
+// schedule is that crontab's is run (each sends to ScheduleCh, capacity 1), the started
+// ManagerEventsHandler turns the events into tasks and appends them to the queues. Barrier without
+// timing: two dummy events (a crontab no hook has) are sent afterwards; the handler handles one event
+// completely before it receives the next, so when the second dummy has been accepted by the channel
+// the first has been received, i.e. every event of the tick has been turned into queued tasks.
+func (s *c11Sys) tick(cn int) int {
 	if !s.started {
 		s.op.ManagerEventsHandler.Start()
 		s.started = true
 	}
 	sm := s.op.ScheduleManager
 	line := fmt.Sprintf("tick %d", cn)
-	// every registration a wall-clock tick of this crontab runs (duplicates included)
 	for _, id := range schedulemanager.VerifC11EntriesFor(sm, s.crontabs[cn-1]) {
 		if !schedulemanager.VerifC11Fire(sm, id) {
 			s.c.Op(line, "entry-gone")
 			return 0
 		}
 	}
-	sent := schedulemanager.VerifC11EntriesFor(sm, s.crontabs[sentinelCn-1])
-	if len(sent) < 1 {
-		s.c.Inconcl = "sentinel crontab has no cron entry"
-		return 0
-	}
-	schedulemanager.VerifC11Fire(sm, sent[0])
-	sq := s.op.TaskQueues.GetByName("sentinel")
-	deadline := time.Now().Add(20 * time.Second)
-	for sq.Length() == 0 {
-		if time.Now().After(deadline) {
-			s.c.Inconcl = "sentinel task did not arrive in 20 s"
+	for i := 0; i < 2; i++ {
+		select {
+		case sm.Ch() <- "verif-barrier":
+		case <-time.After(30 * time.Second):
+			s.c.Op(line, "events-handler-stalled")
 			return 0
 		}
-		time.Sleep(200 * time.Microsecond)
 	}
 	got := s.drain()
 	var parts []string
@@ -467,9 +460,6 @@ func (s *c11Sys) tick(cn int, sentinelCn int) int {
 	var rows []qrow
 	for _, qn := range s.queues {
 		ts := got[qn]
-		if qn == "sentinel" {
-			ts = nil // the barrier's own task
-		}
 		sort.Strings(ts)
 		all = append(all, ts...)
 		rows = append(rows, qrow{s.in.Id("queue/" + qn), fmt.Sprintf("q%d=%s", s.in.Id("queue/"+qn), joinStrs(ts))})
@@ -517,12 +507,11 @@ func c11GenHooks(rng *Rng, crontabs []string) []c11Hook {
 		}
 		hooks = append(hooks, h)
 	}
-	hooks = append(hooks, c11Hook{file: "zz-sentinel.sh", scheds: []c11Sched{{name: "sentinel", crontab: c11Sentinel, queue: "sentinel"}}})
 	return hooks
 }
 
 func runC11(r *Run) {
-	r.Rule = "part A: random histories (<= 30 ops) of scheduleManager.Add/Remove over 3 crontabs x 4 ids on a real manager (started or not; in 35% of the cases one crontab is a spec the cron library rejects), repeats and unknown pairs included; after every op every live cron registration's job is run and the crontab it sends is read back. part B: 1-4 generated hooks (+ a sentinel hook) with 0-3 schedule bindings each over 3 crontabs, sharing crontabs, queues and groups, loaded by the real hook manager (--config); histories (<= 30 ops) of EnableScheduleBindings (the task from the main queue through taskHandler) / DisableScheduleBindings / direct schedule callback / injected ticks through the started ManagerEventsHandler into the real queues. thorough adds every Add/Remove history of length <= 5 over 2 crontabs x 2 ids. A case is non-trivial when (A) it contains a repeated add, a removal of an unknown pair and a removal that empties a crontab, or (B) two bindings share a crontab and some tick produced >= 2 tasks; distinct = distinct op-line sequences."
+	r.Rule = "part A: random histories (<= 30 ops) of scheduleManager.Add/Remove over 3 crontabs x 4 ids on a real manager (started or not; in 35% of the cases one crontab is a spec the cron library rejects), repeats and unknown pairs included; after every op every live cron registration's job is run and the crontab it sends is read back. part B: 1-4 generated hooks with 0-3 schedule bindings each over 3 crontabs, sharing crontabs, queues and groups, loaded by the real hook manager (--config); histories (<= 30 ops) of EnableScheduleBindings (the task from the main queue through taskHandler) / DisableScheduleBindings / direct schedule callback / injected ticks through the started ManagerEventsHandler into the real queues. thorough adds every Add/Remove history of length <= 5 over 2 crontabs x 2 ids. A case is non-trivial when (A) it contains a repeated add, a removal of an unknown pair and a removal that empties a crontab, or (B) two bindings share a crontab and some tick produced >= 2 tasks; distinct = distinct op-line sequences."
 	// corpus: the asymmetries of Add/Remove read off the code
 	r.One(0, func(c *Case, _ *Rng) {
 		c.Desc = "corpus: same id added twice then removed once; unknown pair; invalid crontab between valid ones"
@@ -603,8 +592,7 @@ func runC11(r *Run) {
 		rng.Shuffle(len(perm), func(i, j int) { perm[i], perm[j] = perm[j], perm[i] })
 		cts := []string{c11Valid[perm[0]], c11Valid[perm[1]], c11Valid[perm[2]]}
 		hooks := c11GenHooks(rng, cts)
-		all := append(append([]string{}, cts...), c11Sentinel)
-		s, err := newC11Sys(r, c, hooks, all)
+		s, err := newC11Sys(r, c, hooks, cts)
 		if err != "" {
 			c.Op("setup", err)
 			return
@@ -615,12 +603,10 @@ func runC11(r *Run) {
 			c.Note("B:cron-started")
 		}
 		nh := len(s.hookName)
-		sentinelH := s.hookIdx["zz-sentinel.sh"]
-		s.enable(sentinelH)
 		n := rng.Range(4, 30)
 		maxTasks := 0
 		var used []int
-		for _, h := range hooks[:len(hooks)-1] {
+		for _, h := range hooks {
 			for _, b := range h.scheds {
 				used = append(used, s.cnum(b.crontab))
 			}
@@ -634,20 +620,15 @@ func runC11(r *Run) {
 		for i := 0; i < n; i++ {
 			k := rng.Intn(100)
 			h := rng.Range(1, nh)
-			for h == sentinelH && nh > 1 {
-				h = rng.Range(1, nh)
-			}
 			switch {
 			case k < 35:
 				s.enable(h)
 			case k < 50:
-				if h != sentinelH {
-					s.disable(h)
-				}
+				s.disable(h)
 			case k < 65:
 				s.cb(pickC())
 			default:
-				if t := s.tick(pickC(), 4); t > maxTasks {
+				if t := s.tick(pickC()); t > maxTasks {
 					maxTasks = t
 				}
 			}
@@ -666,11 +647,11 @@ func runC11(r *Run) {
 			}
 		}
 		c.Nontrivial = shared && maxTasks >= 2
-		c.Note(fmt.Sprintf("B:hooks=%d", nh-1))
+		c.Note(fmt.Sprintf("B:hooks-with-schedules=%d", nh))
 		if maxTasks >= 2 {
 			c.Note("B:tick-with>=2-tasks")
 		}
-		c.Desc = fmt.Sprintf("B hooks=%d", nh-1)
+		c.Desc = fmt.Sprintf("B hooks=%d", len(hooks))
 	})
 	if r.Thorough() {
 		// every Add/Remove history of length <= 5 over 2 crontabs x 2 ids
